@@ -6,6 +6,12 @@ pm_c17: model driver for C17.  Ops (one per line):
   rowids <limit> <groups>               g = a,b,c;a,b   (each shard result ascending)
   groupcounts <limit> <groups>          g = r.r:c,r.r:c;...  (each shard result = list of group:count)
   pairs <groups>                        g = id:count,id:count;...
+  rows <groups>                         g = row;row;...  row = `_` (no segment) or seg+seg+...,
+                                        seg = shard:c,c,c (columns relative to the shard, may be empty)
+  bool <groups>                         g = t;f;...
+A line may be prefixed by `e2e` (real executor, one node) or `cl <nodes> <replicas>` (real
+cluster, every node as coordinator); the model answer is the same (that is the property).
+`rowsu` = `rows` (the harness realises it with Union(Row, Row) instead of Row).
 Output: the map-reduce result in canonical text; `#spec` carries the order-free specification
 (Spec.*) evaluated on the same multiset.
 -/
@@ -41,10 +47,37 @@ def parseGC (s : String) : Option GroupCount :=
 def showGC (g : GroupCount) : String :=
   ".".intercalate (g.group.map toString) ++ ":" ++ toString g.count
 
-def step (u : Unit) (ws : List String) : Unit × Ans :=
+def parseSeg (s : String) : Option Seg :=
+  match s.splitOn ":" with
+  | [sh, cs] => do pure ⟨← sh.toNat?, ← csvNats? cs⟩
+  | _ => none
+
+def parseRow (s : String) : Option (List Seg) :=
+  if s = "_" then some [] else (s.splitOn "+").mapM parseSeg
+
+def showSeg (sh : Nat) (cols : List Nat) : String :=
+  toString sh ++ ":" ++ ",".intercalate (cols.map toString)
+
+def showRow (r : List Seg) : String :=
+  if r.isEmpty then "_" else "+".intercalate (r.map (fun s => showSeg s.shard s.cols))
+
+/-- The spec's bits grouped by shard; shards listed without any bit are shown empty so the text is
+comparable with a row that holds empty segments. -/
+def showBits (shards : List Nat) (bits : List (Nat × Nat)) : String :=
+  if shards.isEmpty then "_" else
+  "+".intercalate (shards.map (fun sh => showSeg sh ((bits.filter (fun b => b.1 = sh)).map (·.2))))
+
+def parseBool (s : String) : Option (Option Bool) :=
+  if s = "t" then some (some true) else if s = "f" then some (some false) else none
+
+def showOB : Option Bool → String
+  | none => "nil"
+  | some true => "t"
+  | some false => "f"
+
+def stepCore (ws : List String) : Unit × Ans :=
   let bad := ((), ans "bad-op")
   match ws with
-  | "e2e" :: rest => if rest.head? = some "e2e" then bad else step u rest
   | ["vc", op, gs] =>
     match parseGroups parseVC gs with
     | none => bad
@@ -90,6 +123,55 @@ def step (u : Unit) (ws : List String) : Unit × Ans :=
       ((), ans2 (" ".intercalate ((mapReduce pairsAdd [] groups).map showPair))
                (" ".intercalate ((Spec.pairs groups.flatten).map showPair)) "pairs")
     | none => bad
+  | ["rows", gs] =>
+    match parseGroups parseRow gs with
+    | some groups =>
+      let shards := (groups.flatten.flatten.map (·.shard)).foldl (fun acc x => Spec.insertAsc x acc) []
+      ((), ans2 (showRow (mapReduce rowMerge [] groups))
+               (showBits shards (Spec.rowBits groups.flatten)) "rows")
+    | none => bad
+  | ["rowscols", gs] =>
+    -- executor lines: the result is observed as `Row.Columns()` grouped by shard; empty segments
+    -- (kept by a local reduce, dropped by the protobuf transport of a remote node's result) are
+    -- not part of any API encoding of a row and are not printed
+    match parseGroups parseRow gs with
+    | some groups =>
+      let res := (mapReduce rowMerge [] groups).filter (fun s => !s.cols.isEmpty)
+      let bits := Spec.rowBits groups.flatten
+      let shards := (bits.map (·.1)).foldl (fun acc x => Spec.insertAsc x acc) []
+      ((), ans2 (showRow res) (showBits shards bits) "rows")
+    | none => bad
+  | ["bool", gs] =>
+    match parseGroups parseBool gs with
+    | some groups =>
+      ((), ans2 (showOB (mapReduce boolReduce none groups)) (showOB (Spec.boolOr groups.flatten)) "bool")
+    | none => bad
   | _ => bad
+
+def isPrefixTok (ws : List String) : Bool := ws.head? = some "e2e" || ws.head? = some "cl"
+
+def step (_ : Unit) (ws : List String) : Unit × Ans :=
+  let bad := ((), ans "bad-op")
+  let alias (ws : List String) : List String :=
+    match ws with
+    | ["rowsu", gs] => ["rows", gs]
+    | ["rowscols", _] => ["bad-op"]
+    | _ => ws
+  let aliasX (ws : List String) : List String :=
+    match ws with
+    | ["rowsu", gs] => ["rowscols", gs]
+    | ["rows", gs] => ["rowscols", gs]
+    | ["rowscols", _] => ["bad-op"]
+    | _ => ws
+  match ws with
+  | "e2e" :: rest => if isPrefixTok rest then bad else stepCore (aliasX rest)
+  | "cl" :: n :: r :: rest =>
+    -- a real n-node cluster with r replicas: by C17_* the answer does not depend on the placement
+    match n.toNat?, r.toNat? with
+    | some n, some r =>
+      if n < 1 || n > 5 || r < 1 || r > n || rest.isEmpty || isPrefixTok rest then bad
+      else stepCore (aliasX rest)
+    | _, _ => bad
+  | _ => stepCore (alias ws)
 
 def main : IO Unit := run () step
